@@ -138,7 +138,9 @@ class C03(core.Check):
                 extras.append(["projection", ["projection", r.choice(["AUTO", ["init=epsg:3857"]])]])
         if typ == "style" and r.random() < 0.25:
             extras.append(["pattern", ["pattern", [[r.randint(1, 9), r.randint(1, 9)] for _ in range(r.randint(1, 3))]]])
-        if typ == "feature" or (typ == "symbol" and r.random() < 0.4):
+        if typ == "feature" and r.random() < 0.4:
+            extras.append(["points", ["multipoints", [[[r.randint(0, 50), r.choice([1, 2.5, 10])] for _ in range(r.randint(1, 3))] for _ in range(2)]]])
+        elif typ == "feature" or (typ == "symbol" and r.random() < 0.4):
             extras.append(["points", ["points", [[r.randint(0, 50), r.choice([1, 2.5, 10])] for _ in range(r.randint(1, 4))]]])
         if typ == "outputformat" and r.random() < 0.5:
             extras.append(["formatoption", ["repeated", [r.choice(["GAMMA=0.75", "QUALITY=80"]) for _ in range(r.randint(1, 2))]]])
@@ -214,6 +216,8 @@ class C03(core.Check):
             return ["AUTO"] if item[1] == "AUTO" else list(item[1])
         if kind in ("points", "pattern"):
             return [list(p) for p in item[1]]
+        if kind == "multipoints":
+            return [[list(p) for p in part] for part in item[1]]
         raise core.HarnessError("cannot build " + kind)
 
     # ------------------------------------------------------------ harness-side renderer (for snippets)
@@ -248,6 +252,11 @@ class C03(core.Check):
                 out.append(pad + "  " + k.upper())
                 out += [pad + f"    {x} {y}" for x, y in item[1]]
                 out.append(pad + "  END")
+            elif kind == "multipoints":
+                for part in item[1]:
+                    out.append(pad + "  POINTS")
+                    out += [pad + f"    {x} {y}" for x, y in part]
+                    out.append(pad + "  END")
         out.append(pad + "END")
         return out
 
